@@ -38,7 +38,7 @@ def classify(pid, d):
 
 CLASSIFIERS = {}
 
-ALL_EXTRACTORS = ["Basic", "Message", "Conversion", "Session", "Service", "SigGrammar", "Value", "Reader", "Encoding", "GenReaders", "Endpoint", "Stream", "Client", "Queues", "Auth"]
+ALL_EXTRACTORS = ["Basic", "Message", "Conversion", "Session", "Service", "SigGrammar", "Value", "Reader", "Encoding", "GenReaders", "Endpoint", "Stream", "Client", "Queues", "Auth", "Calls"]
 
 
 def lean_string_list(path, name):
@@ -261,6 +261,26 @@ PROPS = {
             "queue overflow (more than 10 unprocessed frames) only drops frames: ignored by the model, harmless for the gate",
             "the capability map is read and written by the connection goroutine and the service-0 mailbox goroutine without "
             "synchronisation (a data race in Go's memory model): the model interleaves them atomically",
+        ],
+        "timeout": {"quick": 600, "thorough": 3000},
+    },
+    "C04": {
+        "level": "proof",
+        "extract": ["Calls", "Client", "Endpoint", "Auth"],
+        "rule": "(a) server side, exact: a real server with two probe services counting executions (a hand-written object "
+                "behind the generic object dispatcher: echo / zero-argument tick; the generated PingPong stub), raw frames "
+                "of every message type x known / unknown service, object, action x good / truncated / random arguments, one "
+                "at a time to quiescence (a call of an unknown action to the same target is the barrier): what comes back "
+                "and the execution counter are compared with the dispatcher model; (b) client side, exact: the real client "
+                "on the scripted stream with 1-3 clients sharing the endpoint, replies in any order, to calls still inside "
+                "Send, duplicated, and for unknown ids; (c) storms: 2-32 goroutines x echo with a unique argument through "
+                "one proxy / several proxies of a session / Cache proxies sharing one endpoint / one connection each: every "
+                "result is the echo of its own argument, the server executed each argument exactly once",
+        "assumptions": [
+            "the transport delivers every frame once (C01, C10): a request is served once, its response delivered once",
+            "the method is an uninterpreted function of (service, object, action, argument); argument decoding is part of it",
+            "posts have no client API in this code base: they are frames written by the harness",
+            "the error frame a post to a missing target is answered with is not routed back to a caller in the model",
         ],
         "timeout": {"quick": 600, "thorough": 3000},
     },
